@@ -54,7 +54,10 @@ BackSeqs  == { <<[s |-> 1, w |-> -1]>>,
                <<[s |-> 3, w |-> 5], [s |-> 9, w |-> 9], [s |-> 1, w |-> 1]>>,
                \* s = 8: a Service without ready endpoints -- the rule keeps its (empty) backend
                <<[s |-> 8, w |-> -1]>>,
-               <<[s |-> 8, w |-> 2], [s |-> 2, w |-> 2]>> }
+               <<[s |-> 8, w |-> 2], [s |-> 2, w |-> 2]>>,
+               \* the same Service behind two backendRefs: its servers are listed once per reference, each with the weight of its own reference
+               <<[s |-> 1, w |-> 1], [s |-> 2, w |-> 2], [s |-> 1, w |-> 1]>>,
+               <<[s |-> 2, w |-> 3], [s |-> 2, w |-> 3]>> }
 
 (* replicas behind a backendRef *)
 ReplOf(s) == IF s \in {8, 9} THEN 0 ELSE s
